@@ -16,7 +16,7 @@
 (* One TLC state = one case (the root state prints the tables).            *)
 (* Randomness is threaded explicitly (see gen/PlanGen.tla).                 *)
 (***************************************************************************)
-EXTENDS Expr, TLC, Json, SequencesExt
+EXTENDS ExprScope, TLC, Json, SequencesExt
 
 CONSTANTS SEED,   \* run seed (< 46337)
           PLAN    \* sequence of [fam |-> family, tbl |-> "A"|"B", n |-> number of cases, d |-> expression depth]
@@ -29,17 +29,6 @@ PickSeq(seq, sd) == seq[Rnd(sd, Len(seq)) + 1]
 Chance(p, sd) == Rnd(sd, 100) < p
 SetSeq(set) == SetToSortSeq(set, <)
 
-SchA == <<"i", "i", "s", "b">>
-SchB == <<"i8", "i8", "i16", "i32">>
-SchOf(tbl) == IF tbl = "A" THEN SchA ELSE SchB
-
-ValsOf(k) ==
-  CASE k = "i" -> <<Null, I(0 - 1), I(0), I(1), I(2)>>
-    [] k = "s" -> <<Null, S(1), S(2), S(3)>>
-    [] k = "b" -> <<Null, TrueV, FalseV>>
-    [] k = "i8" -> <<Null, I(0 - 128), I(0 - 1), I(0), I(1), I(127)>>
-    [] k = "i16" -> <<Null, I(0 - 32768), I(1), I(32767)>>
-    [] k = "i32" -> <<Null, I(1), I(300)>>
 \* non-NULL literal values per kind (a superset of the column domain)
 LitVals(k) ==
   CASE k = "i" -> <<I(0 - 2), I(0 - 1), I(0), I(1), I(2), I(3)>>
@@ -57,14 +46,6 @@ ListVals(k) ==
     [] OTHER -> LitVals(k)
 
 IsIntK(k) == k \in {"i", "i8", "i16", "i32"}
-
-(* ---------------- the exhaustive table ---------------- *)
-LensOf(tbl) == [c \in 1..4 |-> Len(ValsOf(SchOf(tbl)[c]))]
-StridesOf(tbl) == IF tbl = "A" THEN <<1, 5, 25, 100, 300>> ELSE <<1, 6, 36, 144, 432>>
-ASSUME \A tbl \in {"A", "B"} : \A c \in 1..4 : StridesOf(tbl)[c + 1] = StridesOf(tbl)[c] * LensOf(tbl)[c]
-NRowsOf(tbl) == StridesOf(tbl)[5]
-RowAt(tbl, i) == [c \in 1..4 |-> ValsOf(SchOf(tbl)[c])[(((i - 1) \div StridesOf(tbl)[c]) % LensOf(tbl)[c]) + 1]]
-RowsOf(tbl) == [i \in 1..NRowsOf(tbl) |-> RowAt(tbl, i)]
 
 (* ---------------- leaves ---------------- *)
 ColsOf(sch, k) == {c \in 1..Len(sch) : sch[c] = k}
@@ -96,7 +77,7 @@ GenList(k, n, sch, sd) ==
   [j \in 1..n |->
      IF dyn /\ j = (Rnd(Mix(sd, 3), n) + 1) THEN Col(PickCol(sch, k, Mix(sd, 4)))
      ELSE IF withNull /\ Chance(IF n > 5 THEN 12 ELSE 35, Mix(sd, 100 + j)) THEN LitK(Null, k)
-     ELSE LitK(PickSeq(pool, Mix(sd, 200 + j)), k)]
+     ELSE LitK(PickSeq(IF Chance(25, Mix(sd, 300 + j)) THEN Tail(ValsOf(k)) ELSE pool, Mix(sd, 200 + j)), k)]
 
 GenCaseE(k, d, sch, sd) ==
   LET nw == PickSeq(<<1, 1, 1, 2, 3>>, Mix(sd, 1))
@@ -209,7 +190,7 @@ GenInList(TBL, ix, sd) ==
       list == [j \in 1..n |->
                 IF dyn /\ j = dp THEN Col(PickCol(Sch, nd.k, Mix(sd, 3)))
                 ELSE IF (nulls >= 1 /\ j = np) \/ (nulls = 2 /\ Chance(30, Mix(sd, 100 + j))) THEN LitK(Null, nd.k)
-                ELSE LitK(PickSeq(pool, Mix(sd, 200 + j)), nd.k)] IN
+                ELSE LitK(PickSeq(IF Chance(25, Mix(sd, 300 + j)) THEN Tail(ValsOf(nd.k)) ELSE pool, Mix(sd, 200 + j)), nd.k)] IN
   [k |-> "b", e |-> InList(nd.e, list, neg)]
 
 \* CASE forms (one per evaluation method of the engine) x result kind; sub-expressions are random
@@ -292,8 +273,164 @@ GenLikeFam(ix, sd) ==
              ELSE PatLit(pok) IN
   [k |-> "b", e |-> LikeE(f, e, pat, neg)]
 
+
+\* Shapes the expression simplifier has rewrite rules for, over random sub-expressions that are REUSED inside the
+\* shape (A = A, A AND NOT A, A OR (A AND B), X >= c AND X <= c, NOT (..), IN-list algebra, CASE folding, LIKE,
+\* arithmetic identities, casts compared with literals, constant folding).
+SimpForms == 118
+SimpTotal == SimpForms * 12
+GenSimp(TBL, ix, sd) ==
+  LET Sch == SchOf(TBL)
+      t == Digit(ix, 1, SimpForms) + 1
+      k == IF TBL = "A" THEN "i" ELSE PickSeq(<<"i8", "i8", "i16">>, Mix(sd, 1))
+      sub(kk, j) == IF Chance(45, Mix(sd, 10 + j)) THEN Leaf(kk, Sch, Mix(sd, 20 + j)) ELSE GenX(kk, PickSeq(<<1, 1, 2>>, Mix(sd, 30 + j)), Sch, Mix(sd, 40 + j))
+      X == IF Chance(60, Mix(sd, 2)) /\ ColsOf(Sch, k) # {} THEN Col(PickCol(Sch, k, Mix(sd, 3))) ELSE sub(k, 1)
+      Y == sub(k, 2)
+      Pb == sub("b", 3)
+      Qb == sub("b", 4)
+      Rb == sub("b", 5)
+      St == IF TBL = "A" THEN (IF Chance(60, Mix(sd, 4)) THEN Col(3) ELSE sub("s", 6)) ELSE LitK(S(1), "s")
+      L(j) == LitK(PickSeq(LitVals(k), Mix(sd, 50 + j)), k)
+      one == LitK(I(1), k)
+      zero == LitK(I(0), k)
+      nulk == LitK(Null, k)
+      tru == LitK(TrueV, "b")
+      fls == LitK(FalseV, "b")
+      nulb == LitK(Null, "b")
+      cmp == PickSeq(<<"=", "<>", "<", "<=", ">", ">=">>, Mix(sd, 5))
+      neg == Chance(50, Mix(sd, 6))
+      lst(j, n) == [q \in 1..n |-> IF Chance(12, Mix(sd, 60 + 10 * j + q)) THEN nulk ELSE LitK(PickSeq(LitVals(k), Mix(sd, 70 + 10 * j + q)), k)]
+      pat == PatLit(PickSeq(<<1, 22, 8, 14, 3, 4, 2, 7, 9, 12>>, Mix(sd, 7)))
+      likef == PickSeq(<<"like", "like", "ilike">>, Mix(sd, 8))
+      \* a narrow column widened by a cast, compared with literals around the narrow type's bounds
+      wk == IF TBL = "A" THEN "i32" ELSE PickSeq(<<"i16", "i32", "i">>, Mix(sd, 9))
+      ncol == IF TBL = "A" THEN Col(1) ELSE Col(PickSeq(<<1, 2>>, Mix(sd, 3)))
+      wcast == CastE(wk, Chance(30, Mix(sd, 10)), ncol)
+      wlit(j) == LitK(I(PickSeq(IF TBL = "A" THEN <<0 - 2, 0 - 1, 0, 1, 2, 3, 100>> ELSE <<0 - 129, 0 - 128, 0 - 127, 0 - 1, 0, 1, 126, 127, 128, 300>>, Mix(sd, 80 + j))), wk)
+      bk(e1) == [k |-> "b", e |-> e1]
+      ik(e1) == [k |-> k, e |-> e1]
+      AE(f, a, b) == ArithE(k, f, a, b) IN
+  CASE t = 1 -> bk(Bin("=", X, X))
+    [] t = 2 -> bk(Bin("<>", X, X))
+    [] t = 3 -> bk(Bin("and", Pb, Un("not", Pb)))
+    [] t = 4 -> bk(Bin("and", Un("not", Pb), Pb))
+    [] t = 5 -> bk(Bin("or", Pb, Un("not", Pb)))
+    [] t = 6 -> bk(Bin("or", Un("not", Pb), Pb))
+    [] t = 7 -> bk(Bin("=", Pb, tru))
+    [] t = 8 -> bk(Bin("=", Pb, fls))
+    [] t = 9 -> bk(Bin("=", tru, Pb))
+    [] t = 10 -> bk(Bin("<>", fls, Pb))
+    [] t = 11 -> bk(Bin("<>", Pb, tru))
+    [] t = 12 -> bk(Bin(PickSeq(<<"=", "<>">>, Mix(sd, 5)), Pb, nulb))
+    [] t = 13 -> bk(Bin("or", Pb, tru))
+    [] t = 14 -> bk(Bin("and", Pb, fls))
+    [] t = 15 -> bk(Bin("or", fls, Pb))
+    [] t = 16 -> bk(Bin("and", tru, Pb))
+    [] t = 17 -> bk(Bin("and", Pb, nulb))
+    [] t = 18 -> bk(Bin("or", nulb, Pb))
+    [] t = 19 -> bk(Bin("or", Pb, Bin("and", Pb, Qb)))
+    [] t = 20 -> bk(Bin("or", Bin("and", Qb, Pb), Pb))
+    [] t = 21 -> bk(Bin("and", Pb, Bin("or", Pb, Qb)))
+    [] t = 22 -> bk(Bin("and", Bin("or", Qb, Pb), Pb))
+    [] t = 23 -> bk(Bin("or", Bin("and", Pb, Qb), Bin("and", Pb, Rb)))
+    [] t = 24 -> bk(Bin("and", Bin("and", Pb, Qb), Pb))
+    [] t = 25 -> bk(Bin("or", Pb, Bin("or", Qb, Pb)))
+    [] t = 26 -> bk(Bin("and", Bin(">=", X, L(1)), Bin("<=", X, L(1))))
+    [] t = 27 -> bk(Bin("and", Bin("=", X, L(1)), Bin("<>", X, L(2))))
+    [] t = 28 -> bk(Bin("and", Bin("<>", X, L(2)), Bin("=", X, L(1))))
+    [] t = 29 -> bk(Un("not", Bin(cmp, X, Y)))
+    [] t = 30 -> bk(Un("not", Bin("and", Pb, Qb)))
+    [] t = 31 -> bk(Un("not", Bin("or", Pb, Qb)))
+    [] t = 32 -> bk(Un("not", Un("not", Pb)))
+    [] t = 33 -> bk(Un("not", BetweenE(X, L(1), L(2), neg)))
+    [] t = 34 -> bk(BetweenE(X, L(1), L(2), neg))
+    [] t = 35 -> bk(BetweenE(X, Y, L(2), neg))
+    [] t = 36 -> bk(Un("not", Un(PickSeq(<<"isnull", "isnotnull">>, Mix(sd, 5)), X)))
+    [] t = 37 -> bk(Un("not", LikeE(likef, St, pat, neg)))
+    [] t = 38 -> bk(Un("not", InList(X, lst(1, 3), neg)))
+    [] t = 39 -> bk(Un("not", Bin(PickSeq(<<"isdistinct", "isnotdistinct">>, Mix(sd, 5)), X, Y)))
+    [] t = 40 -> bk(InList(X, <<L(1)>>, neg))
+    [] t = 41 -> bk(InList(X, <<L(1), L(1), L(2)>>, neg))
+    [] t = 42 -> bk(InList(nulk, lst(1, 3), neg))
+    [] t = 43 -> bk(InList(X, <<nulk>>, neg))
+    [] t = 44 -> bk(InList(X, <<nulk, L(1)>>, neg))
+    [] t = 45 -> bk(Bin("or", Bin("or", Bin("=", X, L(1)), Bin("=", X, L(2))), Bin("=", X, L(3))))
+    [] t = 46 -> bk(Bin("or", Bin("=", X, L(1)), Bin("=", L(2), X)))
+    [] t = 47 -> bk(Bin("and", InList(X, lst(1, 3), FALSE), InList(X, lst(2, 3), FALSE)))
+    [] t = 48 -> bk(Bin("and", InList(X, lst(1, 4), FALSE), InList(X, lst(2, 3), TRUE)))
+    [] t = 49 -> bk(Bin("and", InList(X, lst(1, 3), TRUE), InList(X, lst(2, 4), FALSE)))
+    [] t = 50 -> bk(Bin("or", InList(X, lst(1, 3), TRUE), InList(X, lst(2, 3), TRUE)))
+    [] t = 51 -> bk(Bin("or", InList(X, lst(1, 3), FALSE), InList(X, lst(2, 3), FALSE)))
+    [] t = 52 -> bk(Bin("and", InList(X, lst(1, 3), TRUE), InList(X, lst(2, 3), TRUE)))
+    [] t = 53 -> bk(Bin("and", Bin("<>", X, L(1)), Bin("<>", X, L(2))))
+    [] t = 54 -> bk(LikeE(likef, St, PatLit(PickSeq(<<1, 22>>, Mix(sd, 5))), neg))
+    [] t = 55 -> bk(LikeE(likef, St, PatLit(PickSeq(<<8, 14, 7, 17>>, Mix(sd, 5))), neg))
+    [] t = 56 -> bk(LikeE(likef, St, LitK(Null, "p"), neg))
+    [] t = 57 -> bk(LikeE(likef, LitK(Null, "s"), pat, neg))
+    [] t = 58 -> bk(LikeE(likef, St, pat, neg))
+    [] t = 59 -> bk(LikeE(likef, LitK(PickSeq(<<S(1), S(2), S(3)>>, Mix(sd, 5)), "s"), pat, neg))
+    [] t = 60 -> bk(Bin("isnotdistinct", X, X))
+    [] t = 61 -> bk(Bin("isdistinct", X, X))
+    [] t = 62 -> bk(Bin("isnotdistinct", X, nulk))
+    [] t = 63 -> bk(Bin("isdistinct", nulk, X))
+    [] t = 64 -> ik(CaseE(<< <<tru, X>> >>, Y))
+    [] t = 65 -> ik(CaseE(<< <<fls, X>> >>, Y))
+    [] t = 66 -> ik(CaseE(<< <<fls, X>> >>, nulk))
+    [] t = 67 -> ik(CaseE(<< <<Pb, X>>, <<tru, Y>> >>, L(1)))
+    [] t = 68 -> ik(CaseE(<< <<Pb, X>>, <<fls, Y>> >>, L(1)))
+    [] t = 69 -> ik(CaseE(<< <<nulb, X>> >>, Y))
+    [] t = 70 -> bk(CaseE(<< <<Pb, tru>> >>, fls))
+    [] t = 71 -> bk(CaseE(<< <<Pb, fls>> >>, tru))
+    [] t = 72 -> bk(CaseE(<< <<Pb, tru>>, <<Qb, fls>> >>, IF neg THEN tru ELSE nulb))
+    [] t = 73 -> bk(CaseE(<< <<Pb, Qb>> >>, Rb))
+    [] t = 74 -> bk(CaseE(<< <<Pb, Qb>>, <<Rb, tru>> >>, nulb))
+    [] t = 75 -> bk(CaseE(<< <<Pb, tru>>, <<Qb, tru>>, <<Rb, fls>> >>, tru))
+    [] t = 76 -> bk(Bin(cmp, CaseE(<< <<Pb, L(1)>>, <<Qb, L(2)>> >>, L(3)), L(1)))
+    [] t = 77 -> bk(Bin("=", CaseE(<< <<Pb, L(1)>> >>, nulk), L(1)))
+    [] t = 78 -> bk(Bin(cmp, wcast, wlit(1)))
+    [] t = 79 -> bk(Bin(cmp, wlit(1), wcast))
+    [] t = 80 -> bk(InList(wcast, <<wlit(1), wlit(2), wlit(3)>>, neg))
+    [] t = 81 -> bk(Bin(PickSeq(<<"isdistinct", "isnotdistinct">>, Mix(sd, 5)), wcast, wlit(1)))
+    [] t = 82 -> bk(BetweenE(wcast, wlit(1), wlit(2), neg))
+    [] t = 83 -> bk(Un(PickSeq(<<"istrue", "isfalse", "isnottrue", "isnotfalse", "isunknown", "isnotunknown">>, Mix(sd, 5)), Bin(cmp, X, Y)))
+    [] t = 84 -> bk(Un(PickSeq(<<"isnull", "isnotnull">>, Mix(sd, 5)), Bin(cmp, X, L(1))))
+    [] t = 85 -> bk(Un(PickSeq(<<"isnull", "isnotnull">>, Mix(sd, 5)), X))
+    [] t = 86 -> bk(Bin(cmp, AE(PickSeq(<<"+", "-">>, Mix(sd, 7)), L(1), L(2)), X))
+    [] t = 87 -> bk(Bin(cmp, X, AE("/", L(1), zero)))
+    [] t = 88 -> bk(Bin(cmp, AE(PickSeq(<<"+", "-">>, Mix(sd, 7)), X, L(1)), L(2)))
+    [] t = 89 -> bk(Bin("and", Bin(cmp, X, L(1)), Bin(PickSeq(<<"<", ">", "<=", ">=">>, Mix(sd, 7)), X, L(2))))
+    [] t = 90 -> bk(Bin("or", Bin(cmp, X, L(1)), Bin(PickSeq(<<"<", ">", "=", "<>">>, Mix(sd, 7)), X, L(2))))
+    [] t = 91 -> ik(AE("*", X, one))
+    [] t = 92 -> ik(AE("*", one, X))
+    [] t = 93 -> ik(AE("*", X, zero))
+    [] t = 94 -> ik(AE("*", zero, X))
+    [] t = 95 -> ik(AE("/", X, one))
+    [] t = 96 -> ik(AE("%", X, one))
+    [] t = 97 -> ik(AE("+", X, zero))
+    [] t = 98 -> ik(AE("-", X, zero))
+    [] t = 99 -> ik(AE("/", X, X))
+    [] t = 100 -> ik(AE("-", X, X))
+    [] t = 101 -> ik(UnArithE(k, "neg", UnArithE(k, "neg", X)))
+    [] t = 102 -> ik(UnArithE(k, "neg", AE(PickSeq(<<"+", "-", "*">>, Mix(sd, 7)), X, Y)))
+    [] t = 103 -> ik(AE("%", X, Y))
+    [] t = 104 -> ik(AE("*", X, nulk))
+    [] t = 105 -> ik(Coalesce(<<X, X>>))
+    [] t = 106 -> ik(Coalesce(<<nulk, X>>))
+    [] t = 107 -> ik(Coalesce(<<L(1), X>>))
+    [] t = 108 -> ik(Coalesce(<<X, nulk, Y>>))
+    [] t = 109 -> ik(NullIfE(X, X))
+    [] t = 110 -> ik(NullIfE(X, nulk))
+    [] t = 111 -> ik(NullIfE(X, L(1)))
+    [] t = 112 -> ik(CaseE(<< <<Pb, X>> >>, X))
+    [] t = 113 -> ik(CaseE(<< <<Un("isnotnull", X), X>> >>, Y))
+    [] t = 114 -> ik(CaseXE(X, << <<L(1), L(2)>>, <<L(1), L(3)>>, <<nulk, L(4)>> >>, Y))
+    [] t = 115 -> ik(CaseXE(L(1), << <<L(1), X>>, <<L(2), Y>> >>, nulk))
+    [] t = 116 -> ik(CastE(k, neg, L(1)))
+    [] t = 117 -> bk(Bin("and", Bin("or", Pb, Qb), Bin("or", Pb, Rb)))
+    [] t = 118 -> bk(Bin(PickSeq(<<"and", "or">>, Mix(sd, 5)), Bin(cmp, X, Y), Un("not", Bin(cmp, X, Y))))
+
 Total(fam, tbl) == CASE fam = "inlist" -> InListTotal(tbl) [] fam = "case" -> CaseTotal(tbl)
-                     [] fam = "guard" -> GuardTotal [] fam = "like" -> LikeTotal [] OTHER -> M
+                     [] fam = "guard" -> GuardTotal [] fam = "like" -> LikeTotal [] fam = "simp" -> SimpTotal [] OTHER -> M
 \* number of cases of plan entry p
 CountOf(p) == IF PLAN[p].n > Total(PLAN[p].fam, PLAN[p].tbl) THEN Total(PLAN[p].fam, PLAN[p].tbl) ELSE PLAN[p].n
 GenCase(p, n) ==
@@ -307,6 +444,7 @@ GenCase(p, n) ==
     [] fam = "case" -> GenCaseFam(tbl, ix, Mix(sd, 4))
     [] fam = "guard" -> GenGuard(tbl, ix, Mix(sd, 4))
     [] fam = "like" -> GenLikeFam(ix, Mix(sd, 4))
+    [] fam = "simp" -> GenSimp(tbl, ix, Mix(sd, 4))
 
 (* ---------------- emission ---------------- *)
 \* compact value code: the kind of every value of a case is the case's result kind
